@@ -102,10 +102,11 @@ def writeDocString (s : Bytes) : Bytes :=
 /-- main.go:133: the interface name in lower case without dots and dashes -/
 def pkgBase (name : Bytes) : Bytes := toLower (replaceByte dash [] (replaceByte dot [] name))
 
-/-- package name (main.go:133-137): a Go keyword or `main` gets a trailing underscore -/
+/-- package name (main.go:133-138): a Go keyword, `main` or `documentation` (`reservedPkgNames`) gets a
+    trailing underscore -/
 def pkgName (name : Bytes) : Bytes :=
   let p := pkgBase name
-  if goKeywords.contains p || p == str "main" then p ++ str "_" else p
+  if goKeywords.contains p || reservedPkgNames.contains p then p ++ str "_" else p
 
 /-! ## loops over a field list -/
 
@@ -127,7 +128,7 @@ def eachFieldSep (sep : Bytes) (f : Bytes → Ty → Option Bytes) (first : Bool
     | some a, some b => some ((if first then [] else sep) ++ a ++ b)
     | _, _ => none
 
-/-- loops that only read `f.Name` (main.go:170-183): never crash -/
+/-- loops that only read `f.Name` (main.go:171-184): never crash -/
 def eachName (f : Bytes → Bool → Bytes) : Fields → Bytes
   | .nil => []
   | .bare n r => f n r.isNil ++ eachName f r
@@ -152,7 +153,7 @@ def resultList (ind : Nat) (fs : Fields) : Option Bytes :=
 def resultTypes (ind : Nat) (fs : Fields) : Option Bytes :=
   eachField (fun _ t => (writeType t false ind).map (fun ty => ty ++ str ", ")) fs
 
-/-- copy of the parameters into the tagged struct (main.go:263-278, 341-356, 437-452, 474-489):
+/-- copy of the parameters into the tagged struct (main.go:264-279, 342-357, 438-453, 475-490):
     `\t<dst>.<Field> = <conversion>(<name><suffix>)\n` -/
 def copyIn (dst suffix : Bytes) (fs : Fields) : Option Bytes :=
   eachField (fun n t =>
@@ -163,7 +164,7 @@ def copyIn (dst suffix : Bytes) (fs : Fields) : Option Bytes :=
         str "\t" ++ dst ++ str "." ++ title n ++ str " = (" ++ ty ++ str ")(" ++ n ++ suffix ++ str ")\n")
     | .plain => some (str "\t" ++ dst ++ str "." ++ title n ++ str " = " ++ n ++ suffix ++ str "\n")) fs
 
-/-- copy of the decoded reply into the named results (main.go:305-320, 384-399) -/
+/-- copy of the decoded reply into the named results (main.go:306-321, 385-400) -/
 def copyOut (fs : Fields) : Option Bytes :=
   eachField (fun n t =>
     match convKind t with
@@ -173,7 +174,7 @@ def copyOut (fs : Fields) : Option Bytes :=
         str "\t\t" ++ n ++ str "_out_ = (" ++ ty ++ str ")(out." ++ title n ++ str ")\n")
     | .plain => some (str "\t\t" ++ n ++ str "_out_ = out." ++ title n ++ str "\n")) fs
 
-/-- arguments of the dispatcher's call (main.go:527-542) -/
+/-- arguments of the dispatcher's call (main.go:528-543) -/
 def dispatchArgs (fs : Fields) : Option Bytes :=
   eachField (fun n t =>
     match convKind t with
@@ -209,7 +210,7 @@ def resolvesToObjectF (aliases : List Member) : Nat → Ty → Bool
 def resolvesToObject (t : Idl) (ty : Ty) : Bool :=
   resolvesToObjectF t.aliases (2 * t.aliases.length + 3) ty
 
-/-- main.go:151-160: only aliases that resolve to object are Go type aliases (`type A = B`), because a defined
+/-- main.go:152-161: only aliases that resolve to object are Go type aliases (`type A = B`), because a defined
     type would lose json.RawMessage's MarshalJSON/UnmarshalJSON; everything else stays a defined type, which may
     be recursive -/
 def aliasDecl (t : Idl) : Member → Option Bytes
@@ -218,10 +219,10 @@ def aliasDecl (t : Idl) : Member → Option Bytes
       ++ str "\n\n")
   | _ => some []
 
-/-- `e.Type` after main.go:139-144 (a missing type is an empty struct) -/
+/-- `e.Type` after main.go:140-145 (a missing type is an empty struct) -/
 def errTy (ty : Option Ty) : Ty := ty.getD (.struct .nil)
 
-/-- main.go:162-188 -/
+/-- main.go:163-189 -/
 def errorDecl (iface : Bytes) : Member → Option Bytes
   | .error n d oty =>
     let ty := errTy oty
@@ -241,7 +242,7 @@ def errorDecl (iface : Bytes) : Member → Option Bytes
       ++ str "}\n\n")
   | _ => some []
 
-/-- main.go:193-206 -/
+/-- main.go:194-207 -/
 def dispatchErrorCase (iface : Bytes) : Member → Bytes
   | .error n _ _ =>
     str "\t\tcase \"" ++ iface ++ str "." ++ n ++ str "\":\n"
@@ -257,7 +258,7 @@ def dispatchErrorCase (iface : Bytes) : Member → Bytes
     ++ str "\t\t\treturn &param\n"
   | _ => []
 
-/-- main.go:190-210 -/
+/-- main.go:191-211 -/
 def dispatchErrorFunc (iface : Bytes) (errors : List Member) : Bytes :=
   str "func Dispatch_Error(err error) error {\n"
   ++ str "\tif e, ok := err.(*varlink.Error); ok {\n"
@@ -268,7 +269,7 @@ def dispatchErrorFunc (iface : Bytes) (errors : List Member) : Bytes :=
   ++ str "\treturn err\n"
   ++ str "}\n\n"
 
-/-- `var in <tagged struct>` + copies, or nothing (main.go:259-282 / 337-360), ending in the
+/-- `var in <tagged struct>` + copies, or nothing (main.go:260-283 / 338-361), ending in the
     `receive, err := c.<callee>(ctx, "<iface>.<m>", in|nil<tail>` line -/
 def sendPrologue (iface name callee tail : Bytes) (inTy : Ty) : Option Bytes :=
   let fs := tyFields inTy
@@ -281,14 +282,14 @@ def sendPrologue (iface name callee tail : Bytes) (inTy : Ty) : Option Bytes :=
   else
     some (str "\treceive, err := c." ++ callee ++ str "(ctx, \"" ++ iface ++ str "." ++ name ++ str "\", nil" ++ tail)
 
-/-- `var out <tagged struct>` + receive, or receive into nil (main.go:293-300 / 372-379) -/
+/-- `var out <tagged struct>` + receive, or receive into nil (main.go:294-301 / 373-380) -/
 def receiveBody (lhs : Bytes) (outTy : Ty) : Option Bytes :=
   if !(tyFields outTy).isNil then
     (writeType outTy true 2).map (fun t =>
       str "\t\tvar out " ++ t ++ str "\n" ++ str "\t\t" ++ lhs ++ str " = receive(ctx, &out)\n")
   else some (str "\t\t" ++ lhs ++ str " = receive(ctx, nil)\n")
 
-/-- main.go:214-403, one method -/
+/-- main.go:215-404, one method -/
 def methodClient (iface : Bytes) : Member → Option Bytes
   | .method n d inTy outTy =>
     let ins := tyFields inTy
@@ -342,7 +343,7 @@ def methodClient (iface : Bytes) : Member → Option Bytes
     | _, _, _, _, _, _, _, _, _ => none
   | _ => some []
 
-/-- main.go:408-415, one line of the service interface -/
+/-- main.go:409-416, one line of the service interface -/
 def ifaceMethod : Member → Option Bytes
   | .method n _ inTy _ =>
     (paramList (str "_") 1 (tyFields inTy)).map (fun ps =>
@@ -353,7 +354,7 @@ def ifaceMethod : Member → Option Bytes
 def replyParams (fs : Fields) : Option Bytes :=
   eachFieldSep (str ", ") (fun n t => (writeType t false 1).map (fun ty => n ++ str "_ " ++ ty)) true fs
 
-/-- main.go:424-456 -/
+/-- main.go:425-457 -/
 def errorReply (iface : Bytes) : Member → Option Bytes
   | .error n d oty =>
     let fs := tyFields (errTy oty)
@@ -368,7 +369,7 @@ def errorReply (iface : Bytes) : Member → Option Bytes
     | _, _ => none
   | _ => some []
 
-/-- main.go:460-495 -/
+/-- main.go:461-496 -/
 def methodReply : Member → Option Bytes
   | .method n _ _ outTy =>
     let fs := tyFields outTy
@@ -384,7 +385,7 @@ def methodReply : Member → Option Bytes
     | none => none
   | _ => some []
 
-/-- main.go:499-509 -/
+/-- main.go:500-510 -/
 def dummyImpl (iface : Bytes) : Member → Option Bytes
   | .method n d inTy _ =>
     (paramList (str "_") 1 (tyFields inTy)).map (fun ps =>
@@ -395,7 +396,7 @@ def dummyImpl (iface : Bytes) : Member → Option Bytes
       ++ str "}\n\n")
   | _ => some []
 
-/-- main.go:515-549 -/
+/-- main.go:516-550 -/
 def dispatchCase (pkg : Bytes) : Member → Option Bytes
   | .method n _ inTy _ =>
     let fs := tyFields inTy
@@ -418,30 +419,30 @@ def dispatchCase (pkg : Bytes) : Member → Option Bytes
         ++ str "\n")
   | _ => some []
 
-/-- the raw-string splice of the description (main.go:564-565) -/
+/-- the raw-string splice of the description (main.go:565-566) -/
 def quoteDescription (d : Bytes) : Bytes :=
   replaceByte cr (str "` + \"\\r\" + `") (replaceByte backtick (str "` + \"`\" + `") d)
 
-/-- the expression after `return ` in `VarlinkGetName` (main.go:558) -/
+/-- the expression after `return ` in `VarlinkGetName` (main.go:559) -/
 def nameLiteral (name : Bytes) : Bytes := str "`" ++ name ++ str "`"
 
-/-- the expression after `return ` in `VarlinkGetDescription` (main.go:564-567) -/
+/-- the expression after `return ` in `VarlinkGetDescription` (main.go:565-568) -/
 def descLiteral (description : Bytes) : Bytes := str "`" ++ quoteDescription description ++ str "\n`"
 
-/-- main.go:555-558, up to the returned expression -/
+/-- main.go:556-559, up to the returned expression -/
 def tailHead : Bytes :=
   str "// Generated varlink interface name\n\n"
   ++ str "func (s *VarlinkInterface) VarlinkGetName() string {\n"
   ++ str "\treturn "
 
-/-- main.go:558-567, between the two returned expressions -/
+/-- main.go:559-568, between the two returned expressions -/
 def tailMid : Bytes :=
   str "\n" ++ str "}\n\n"
   ++ str "// Generated varlink interface description\n\n"
   ++ str "func (s *VarlinkInterface) VarlinkGetDescription() string {\n"
   ++ str "\treturn "
 
-/-- main.go:567-577 -/
+/-- main.go:568-578 -/
 def tailEnd (pkg : Bytes) : Bytes :=
   str "\n}\n\n"
   ++ str "// Generated service interface\n\n"
@@ -452,11 +453,11 @@ def tailEnd (pkg : Bytes) : Bytes :=
   ++ str "\treturn &VarlinkInterface{m}\n"
   ++ str "}\n"
 
-/-- main.go:555-577: `VarlinkGetName` returns `nameLiteral`, `VarlinkGetDescription` returns `descLiteral` -/
+/-- main.go:556-578: `VarlinkGetName` returns `nameLiteral`, `VarlinkGetDescription` returns `descLiteral` -/
 def tailText (pkg name description : Bytes) : Bytes :=
   tailHead ++ nameLiteral name ++ tailMid ++ descLiteral description ++ tailEnd pkg
 
-/-- the buffer `b` at main.go:579 (written from main.go:148 on): the declarations, generated before the header -/
+/-- the buffer `b` at main.go:580 (written from main.go:149 on): the declarations, generated before the header -/
 def bodyText (t : Idl) : Option Bytes :=
   let pkg := pkgName t.name
   match concatOpt (aliasDecl t) t.aliases, concatOpt (errorDecl t.name) t.errors,
@@ -507,23 +508,23 @@ def memberUsesJson : Member → Bool
   | .method _ _ i o => fsUsesObject (tyFields i) || fsUsesObject (tyFields o)
   | .error _ _ _ => true
 
-/-- `b.usesJSON` at main.go:581 -/
+/-- `b.usesJSON` at main.go:582 -/
 def usesJson (t : Idl) : Bool := t.members.any memberUsesJson
 
 def memberUsesFmt : Member → Bool
   | .error _ _ oty => !(tyFields (errTy oty)).isNil
   | _ => false
 
-/-- `b.usesFmt` at main.go:584 -/
+/-- `b.usesFmt` at main.go:585 -/
 def usesFmt (t : Idl) : Bool := t.members.any memberUsesFmt
 
-/-- the import list (main.go:579-586): `varlink` and `context` are used by the fixed part of every file -/
+/-- the import list (main.go:580-587): `varlink` and `context` are used by the fixed part of every file -/
 def importList (t : Idl) : List Bytes :=
   [str "\"github.com/varlink/go/varlink\"", str "\"context\""]
   ++ (if usesJson t then [str "\"encoding/json\""] else [])
   ++ (if usesFmt t then [str "\"fmt\""] else [])
 
-/-- the buffer `head` (main.go:588-592): generated-code line, interface documentation, package clause,
+/-- the buffer `head` (main.go:589-593): generated-code line, interface documentation, package clause,
     import block. Documentation and names are only copied; nothing is searched or replaced in them. -/
 def headText (t : Idl) : Bytes :=
   str "// Code generated by github.com/varlink/go/cmd/varlink-go-interface-generator, DO NOT EDIT.\n\n"
@@ -531,7 +532,7 @@ def headText (t : Idl) : Bytes :=
   ++ str "package " ++ pkgName t.name ++ str "\n\n"
   ++ str "import (\n" ++ join (str "\n\t") (importList t) ++ str "\n)\n\n"
 
-/-- the argument of `format.Source` (main.go:594): `append(head.Bytes(), b.Bytes()...)` -/
+/-- the argument of `format.Source` (main.go:595): `append(head.Bytes(), b.Bytes()...)` -/
 def genTextO (t : Idl) : Option Bytes := (bodyText t).map (headText t ++ ·)
 
 def genText (t : Idl) : Outcome Bytes := Outcome.ofOption (genTextO t)
